@@ -19,7 +19,7 @@ package ledger
 // keys of fixed seeds), 9 = StateProofSender.
 //
 // Op grammar (one line each); the transaction grammar and the dump tokens are those of the LedgerCore harness:
-//   reset proto=<name> disk=<0|1> lookback=<n> nolru=<a><b> <A..>  fresh ledgers A and B from this genesis; nolru: the account LRU caches of A / of B are disabled → ok
+//   reset proto=<name> disk=<0|1> lookback=<n> nolru=<a><b> apps=<0|1> <A..>  (apps=1: the case carries application calls — outside the Lean model, the driver answers `-`)  fresh ledgers A and B from this genesis; nolru: the account LRU caches of A / of B are disabled → ok
 //   block <k=v params> <dump tokens>                       start the producing evaluator of the next round; the line carries
 //                                                          the constants and the state OBSERVED on the real evaluator   → ok | DIVERGED
 //   group t;t;…                                            eval.TransactionGroup on the producing evaluator        → <class>[@i] | <dump>
@@ -47,6 +47,8 @@ import (
 	"testing"
 	"time"
 
+	"github.com/algorand/avm-abi/apps"
+
 	"github.com/algorand/go-algorand/agreement"
 	"github.com/algorand/go-algorand/config"
 	"github.com/algorand/go-algorand/crypto"
@@ -54,6 +56,7 @@ import (
 	"github.com/algorand/go-algorand/data/bookkeeping"
 	"github.com/algorand/go-algorand/data/committee"
 	"github.com/algorand/go-algorand/data/transactions"
+	"github.com/algorand/go-algorand/data/transactions/logic"
 	"github.com/algorand/go-algorand/data/transactions/verify"
 	"github.com/algorand/go-algorand/ledger/eval"
 	"github.com/algorand/go-algorand/ledger/ledgercore"
@@ -100,10 +103,99 @@ func c20Addr(id uint64) basics.Address {
 	if id < lcN {
 		return c20Addrs[id]
 	}
+	if id >= 1000 {
+		return basics.AppIndex(id).Address() // the account of application <id>
+	}
 	var a basics.Address
 	binary.BigEndian.PutUint64(a[0:8], id)
 	a[31] = 0x77
 	return a
+}
+
+// The application of the `apps` cases (TEAL v8).  Creation: when the creating call is an OptIn, the creator's local counter
+// starts at 7.  NoOp calls: no argument = bump the sender's local counter; "copy" = copy the CREATOR's local counter into
+// the global "seen"; "set" = plain global write; "box" <8 bytes> = box "b" := the bytes.  Every other completion approves.
+const c20AppSrc = `#pragma version 8
+txn ApplicationID
+bz create
+txn OnCompletion
+int NoOp
+!=
+bnz done
+txn NumAppArgs
+bz bump
+txna ApplicationArgs 0
+byte "copy"
+==
+bnz copy
+txna ApplicationArgs 0
+byte "set"
+==
+bnz set
+txna ApplicationArgs 0
+byte "box"
+==
+bnz box
+b done
+copy:
+byte "seen"
+global CreatorAddress
+byte "cnt"
+app_local_get
+app_global_put
+b done
+bump:
+txn Sender
+byte "cnt"
+txn Sender
+byte "cnt"
+app_local_get
+int 1
++
+app_local_put
+b done
+set:
+byte "seen"
+txn FirstValid
+app_global_put
+b done
+box:
+byte "b"
+txna ApplicationArgs 1
+box_put
+b done
+create:
+txn OnCompletion
+int OptIn
+==
+bz done
+txn Sender
+byte "cnt"
+int 7
+app_local_put
+done:
+int 1
+`
+
+var (
+	c20AppProg, c20ClearProg []byte
+	c20ProgOnce              sync.Once
+)
+
+func c20Programs() ([]byte, []byte) {
+	c20ProgOnce.Do(func() {
+		ops, err := logic.AssembleString(c20AppSrc)
+		if err != nil {
+			panic(err)
+		}
+		c20AppProg = ops.Program
+		ops, err = logic.AssembleString("#pragma version 8\nint 1")
+		if err != nil {
+			panic(err)
+		}
+		c20ClearProg = ops.Program
+	})
+	return c20AppProg, c20ClearProg
 }
 
 func c20ID(a basics.Address) string {
@@ -185,6 +277,8 @@ type c20H struct {
 	init     ledgercore.InitState
 	ev       *eval.BlockEvaluator
 	known    []uint64
+	apps     []uint64 // application ids created so far in this case
+	created  []uint64 // application ids created by the last accepted group
 	cases    int
 	blk      bookkeeping.Block
 	haveBlk  bool
@@ -223,6 +317,7 @@ func (h *c20H) reset(op string) string {
 	h.closeLedgers()
 	c20Time["reset:close"] += time.Since(t0)
 	h.known = nil
+	h.apps = nil
 	f := strings.Fields(op)
 	cv := protocol.ConsensusFuture
 	h.onDisk = false
@@ -433,7 +528,7 @@ func (h *c20H) parseTxn(s string) (transactions.Transaction, uint64, uint64, err
 		tx.Note = make([]byte, 8)
 		binary.BigEndian.PutUint64(tx.Note, n)
 	}
-	need := map[string]int{"pay": 10, "keyreg": 14, "acfg": 15, "axfer": 12, "afrz": 10}[f[0]]
+	need := map[string]int{"pay": 10, "keyreg": 14, "acfg": 15, "axfer": 12, "afrz": 10, "appl": 11}[f[0]]
 	if need == 0 || len(f) != need {
 		return tx, 0, 0, fmt.Errorf("bad txn %q", s)
 	}
@@ -469,6 +564,32 @@ func (h *c20H) parseTxn(s string) (transactions.Transaction, uint64, uint64, err
 		tx.FreezeAsset = basics.AssetIndex(u(7))
 		tx.FreezeAccount = c20Addr(u(8))
 		tx.AssetFrozen = f[9] == "1"
+	case "appl": // appl,snd,fee,fv,lv,note,grp,<app id | 0 = create>,<on completion 0..5>,<arg 0 none 1 copy 2 set 3 box>,<account id | 0>
+		approval, clear := c20Programs()
+		tx.Type = protocol.ApplicationCallTx
+		tx.ApplicationID = basics.AppIndex(u(7))
+		tx.OnCompletion = transactions.OnCompletion(u(8))
+		if u(7) == 0 || tx.OnCompletion == transactions.UpdateApplicationOC {
+			tx.ApprovalProgram, tx.ClearStateProgram = approval, clear
+		}
+		if u(7) == 0 {
+			tx.LocalStateSchema = basics.StateSchema{NumUint: 1}
+			tx.GlobalStateSchema = basics.StateSchema{NumUint: 1}
+		}
+		switch u(9) {
+		case 1:
+			tx.ApplicationArgs = [][]byte{[]byte("copy")}
+		case 2:
+			tx.ApplicationArgs = [][]byte{[]byte("set"), []byte("it")}
+		case 3:
+			v := make([]byte, 8)
+			binary.BigEndian.PutUint64(v, u(5))
+			tx.ApplicationArgs = [][]byte{[]byte("box"), v}
+			tx.Boxes = []transactions.BoxRef{{Index: 0, Name: []byte("b")}}
+		}
+		if u(10) != 0 {
+			tx.Accounts = []basics.Address{c20Addr(u(10))}
+		}
 	}
 	return tx, u(6), u(1), nil
 }
@@ -514,6 +635,7 @@ func (h *c20H) group(op string) string {
 		}
 	}
 	ctrBefore := h.ev.VerifLcoreCounter()
+	h.created = nil
 	err := h.ev.TransactionGroup(transactions.WrapSignedTxnsWithAD(stxns)...)
 	cls := lcClassify(err)
 	if err != nil {
@@ -530,6 +652,10 @@ func (h *c20H) group(op string) string {
 		for i := range stxns {
 			if stxns[i].Txn.Type == protocol.AssetConfigTx && stxns[i].Txn.ConfigAsset == 0 {
 				h.addKnown(ctrBefore + uint64(i) + 1)
+			}
+			if stxns[i].Txn.Type == protocol.ApplicationCallTx && stxns[i].Txn.ApplicationID == 0 {
+				h.apps = append(h.apps, ctrBefore+uint64(i)+1)
+				h.created = append(h.created, ctrBefore+uint64(i)+1)
 			}
 		}
 	}
@@ -577,14 +703,15 @@ func (h *c20H) gen(op string) string {
 		return "gen-error " + c20Reject(err) + " " + strings.ReplaceAll(c20Short(err.Error()), " ", "_")
 	}
 	h.maxPay = ub.UnfinishedBlock().ProposerPayout().Raw
+	genRes := c20ResDigest(ub.UnfinishedDeltas()) // the producer's own state change (no prefetcher), proposer-independent part
 	prpAddr := c20Addr(prp)
 	h.blk = ub.FinishBlock(committee.Seed(prpAddr), prpAddr, elig)
 	h.haveBlk = true
 	b := h.blk
 	sp := b.StateProofTracking[protocol.StateProofBasic]
-	return fmt.Sprintf("gen exp=%s abs=%s | bonus=%d load=%d spnext=%d commit=%s",
+	return fmt.Sprintf("gen exp=%s abs=%s | res=%s bonus=%d load=%d spnext=%d commit=%s",
 		c20IDs(b.ParticipationUpdates.ExpiredParticipationAccounts, false), c20IDs(b.ParticipationUpdates.AbsentParticipationAccounts, false),
-		b.Bonus.Raw, uint64(b.Load), uint64(sp.StateProofNextRound), hex.EncodeToString(b.TxnCommitments.NativeSha512_256Commitment[:6]))
+		genRes, b.Bonus.Raw, uint64(b.Load), uint64(sp.StateProofNextRound), hex.EncodeToString(b.TxnCommitments.NativeSha512_256Commitment[:6]))
 }
 
 // hdr: the header fields of the finished block that the model derives.  The op carries the expired / absent lists the producer
@@ -634,6 +761,55 @@ func c20ResTok(r ledgercore.AssetResourceRecord) string {
 	return fmt.Sprintf("R%d@%s=%s/%s", uint64(r.Aidx), c20ID(r.Addr), p, hd)
 }
 
+func c20AppResStr(r ledgercore.AppResourceRecord) string {
+	ps, ls := "nil", "nil"
+	if r.Params.Params != nil {
+		p := *r.Params.Params
+		ps = fmt.Sprintf("{%x %x %+v %+v %d %d %v %v %v}", sha256.Sum256(p.ApprovalProgram), sha256.Sum256(p.ClearStateProgram), c20KV(p.GlobalState), p.StateSchemas, p.ExtraProgramPages, p.Version, p.SizeSponsor, p.ForeignBoxReads, p.FamilyBoxAccess)
+	}
+	if r.State.LocalState != nil {
+		ls = fmt.Sprintf("{%+v %s}", r.State.LocalState.Schema, c20KV(r.State.LocalState.KeyValue))
+	}
+	return fmt.Sprintf("appres %s %d params=%s/%v local=%s/%v", c20ID(r.Addr), uint64(r.Aidx), ps, r.Params.Deleted, ls, r.State.Deleted)
+}
+
+func c20KV(kv basics.TealKeyValue) string {
+	var ks []string
+	for k := range kv {
+		ks = append(ks, k)
+	}
+	sort.Strings(ks)
+	var sb strings.Builder
+	for _, k := range ks {
+		fmt.Fprintf(&sb, "%q=%+v;", k, kv[k])
+	}
+	return "[" + sb.String() + "]"
+}
+
+// c20ResDigest: digest of everything in the delta that does NOT depend on the proposer (asset / application resources,
+// creatables, kv mods, txids): the producer's own delta (GenerateBlock, no prefetcher) and every validation delta must agree on it
+func c20ResDigest(sd ledgercore.StateDelta) string {
+	var full []string
+	for _, r := range sd.Accts.AssetResources {
+		full = append(full, c20ResTok(r))
+	}
+	for _, r := range sd.Accts.AppResources {
+		full = append(full, c20AppResStr(r))
+	}
+	for i, c := range sd.Creatables {
+		full = append(full, fmt.Sprintf("creat %d %d %v %s", i, c.Ctype, c.Created, c20ID(c.Creator)))
+	}
+	for k, v := range sd.KvMods {
+		full = append(full, fmt.Sprintf("kv %x %x %v", k, v.Data, v.Data == nil))
+	}
+	for id, it := range sd.Txids {
+		full = append(full, fmt.Sprintf("txid %x %d %d", id[:], it.LastValid, it.Intra))
+	}
+	sort.Strings(full)
+	sum := sha256.Sum256([]byte(strings.Join(full, "\n")))
+	return hex.EncodeToString(sum[:8])
+}
+
 // c20Delta renders the StateDelta: x = digest over a SORTED full-content rendering (every field of every record, txids,
 // leases, kv mods, creatables, totals, state-proof-next, previous timestamp, header hash); D = accounts / asset resources
 // / creatables in delta order in the LedgerCore model's terms; T = totals.
@@ -659,7 +835,7 @@ func c20Delta(sd ledgercore.StateDelta, withHdr bool) string {
 		d.WriteString(c20ResTok(r))
 	}
 	for _, r := range sd.Accts.AppResources {
-		full = append(full, fmt.Sprintf("appres %x %d %+v", r.Addr[:], r.Aidx, r))
+		full = append(full, c20AppResStr(r))
 	}
 	var cidx []uint64
 	for i := range sd.Creatables {
@@ -690,7 +866,7 @@ func c20Delta(sd ledgercore.StateDelta, withHdr bool) string {
 	}
 	sort.Strings(full)
 	sum := sha256.Sum256([]byte(strings.Join(full, "\n")))
-	return fmt.Sprintf("ok x=%s | %s | %s", hex.EncodeToString(sum[:10]), d.String(), tot)
+	return fmt.Sprintf("ok x=%s res=%s | %s | %s", hex.EncodeToString(sum[:10]), c20ResDigest(sd), d.String(), tot)
 }
 
 func c20Reject(err error) string {
@@ -959,6 +1135,20 @@ func (h *c20H) stateDigest(l *Ledger) string {
 			}
 		}
 	}
+	for _, app := range h.apps {
+		for id := uint64(0); id < lcN; id++ {
+			r, err := l.LookupApplication(rnd, c20Addr(id), basics.AppIndex(app))
+			if err != nil || r.AppParams != nil || r.AppLocalState != nil {
+				rec := ledgercore.AppResourceRecord{Aidx: basics.AppIndex(app), Addr: c20Addr(id)}
+				rec.Params.Params, rec.State.LocalState = r.AppParams, r.AppLocalState
+				parts = append(parts, fmt.Sprintf("%s %v", c20AppResStr(rec), err))
+			}
+		}
+		box, err := l.LookupKv(rnd, apps.MakeBoxKey(app, "b"))
+		parts = append(parts, fmt.Sprintf("box %d %x %v", app, box, err))
+		d, _, err := l.LookupWithoutRewards(rnd, c20Addr(app))
+		parts = append(parts, fmt.Sprintf("appacct %d %+v %v", app, d, err))
+	}
 	_, tot, err := l.LatestTotals()
 	parts = append(parts, fmt.Sprintf("tot %+v %v", tot, err))
 	hdr, _ := l.BlockHdr(rnd)
@@ -1067,9 +1257,10 @@ func (h *c20H) exec(op string) string {
 // ----------------------------------------------------------------------------------------------- generator
 
 type c20Gen struct {
-	r  *vh.Rng
-	h  *c20H
-	lg *lcGen
+	r    *vh.Rng
+	h    *c20H
+	lg   *lcGen
+	apps bool // this case carries application calls
 }
 
 func (g *c20Gen) genesis(c int) (string, string) {
@@ -1087,7 +1278,7 @@ func (g *c20Gen) genesis(c int) (string, string) {
 	}
 	// (opening a ledger with its LRU account caches allocates 100000-entry lists, maps and channels: the dominant cost of a case)
 	nolru := []string{"01", "01", "10", "11", "11"}[r.Intn(5)]
-	fmt.Fprintf(&sb, "reset proto=%s disk=%d lookback=%d nolru=%s", proto, disk, lookback, nolru)
+	fmt.Fprintf(&sb, "reset proto=%s disk=%d lookback=%d nolru=%s apps=%s", proto, disk, lookback, nolru, lcB(g.apps))
 	mb := uint64(100000)
 	huge := false
 	for id := uint64(1); id <= 6; id++ {
@@ -1174,6 +1365,12 @@ func TestVerifC20(t *testing.T) {
 		profiles = []string{p}
 	}
 	for c := 0; c < cases; c++ {
+		// every third case carries application calls (app creators opted in to their own apps in EARLIER blocks, NoOp / update /
+		// delete calls touching the creator's local state, global state, boxes); the Lean driver answers `-` for these cases
+		g.apps = c%3 == 1
+		if p := os.Getenv("VERIF_C20_APPS"); p != "" {
+			g.apps = p == "1"
+		}
 		op, proto := g.genesis(c)
 		res := h.exec(op)
 		out.Emit(op, res)
@@ -1182,6 +1379,7 @@ func TestVerifC20(t *testing.T) {
 		}
 		lh := &lcHarness{t: t}
 		g.lg = &lcGen{r: rng, profile: profiles[c%len(profiles)], h: lh}
+		ag := &c20AppGen{creator: map[uint64]uint64{}, opted: map[[2]uint64]bool{}, funded: map[uint64]bool{}, deleted: map[uint64]bool{}}
 		blocks := 4 + rng.Intn(4)
 		if proto == "fast" {
 			blocks = 5 + rng.Intn(4) // reach the rewards recalculation rounds and an active challenge
@@ -1207,7 +1405,10 @@ func TestVerifC20(t *testing.T) {
 			lg.round, lg.minFee, lg.minBal, lg.level, lg.unit = uint64(h.ev.Round()), p.MinFee().Raw, p.MinBalance, h.ev.VerifLcoreRewardsLevel(), p.RewardUnit
 			lg.okTxns = nil
 			var script []string
-			if ngroups > 0 {
+			if g.apps && ngroups == 0 && b > 0 {
+				ngroups = 3 + rng.Intn(6)
+			}
+			if ngroups > 0 && !g.apps {
 				switch {
 				case rng.Chance(20):
 					script = lg.scriptAssets(h.view())
@@ -1222,11 +1423,22 @@ func TestVerifC20(t *testing.T) {
 				var gop string
 				if i < len(script) {
 					gop = script[i]
+				} else if g.apps && !rng.Chance(12) {
+					gop = g.genAppGroup(ag)
 				} else {
 					gop = lg.genGroup(h.view())
 				}
 				gres := h.exec(gop)
 				out.Emit(gop, gres)
+				if strings.HasPrefix(gres, "ok ") {
+					for _, t := range strings.Split(strings.TrimPrefix(gop, "group "), ";") {
+						if f := strings.Split(t, ","); f[0] == "appl" && f[7] == "0" && len(h.created) > 0 {
+							ag.creator[h.created[0]] = vh.U(f[1])
+						} else if f[0] == "appl" && f[8] == "5" {
+							ag.deleted[vh.U(f[7])] = true
+						}
+					}
+				}
 				if strings.HasPrefix(gres, "ok ") && len(gop) > 6 {
 					lg.okTxns = append(lg.okTxns, strings.Split(gop[6:], ";")...)
 				}
@@ -1300,6 +1512,91 @@ func TestVerifC20(t *testing.T) {
 				break
 			}
 		}
+	}
+}
+
+// ---- application calls (cases with apps=1; outside Model.LedgerCore / Model.BlockEval: implementation-only monitors) ----
+
+type c20AppGen struct {
+	creator map[uint64]uint64    // app id → creator id
+	opted   map[[2]uint64]bool   // (app id, account id) opted in, as far as the generator knows
+	funded  map[uint64]bool      // the application account got algos (boxes)
+	deleted map[uint64]bool
+}
+
+func (g *c20Gen) appTxn(snd uint64, fee uint64, app uint64, oc int, arg int, acct uint64) string {
+	lg := g.lg
+	lg.nonce++
+	return fmt.Sprintf("appl,%d,%d,%d,%d,%d,0,%d,%d,%d,%d", snd, fee, lg.round, lg.round+10, lg.nonce, app, oc, arg, acct)
+}
+
+// one group of an apps case
+func (g *c20Gen) genAppGroup(ag *c20AppGen) string {
+	r, lg, h := g.r, g.lg, g.h
+	user := func() uint64 {
+		if r.Chance(80) {
+			return lg.payer(h.view()) // usually an account that can pay
+		}
+		return uint64(1 + r.Intn(6))
+	}
+	fee := lg.minFee * uint64(1+r.Intn(3))
+	var live []uint64
+	for _, a := range h.apps {
+		if !ag.deleted[a] || r.Chance(5) {
+			live = append(live, a)
+		}
+	}
+	if len(live) == 0 || r.Chance(6) { // create; mostly with the creator opting in in the same transaction
+		oc := 1
+		if r.Chance(35) {
+			oc = 0
+		}
+		return "group " + g.appTxn(user(), 3*lg.minFee, 0, oc, 0, 0)
+	}
+	if r.Chance(15) {
+		return "group " + strings.Replace(lg.goodPay(h.view()), "GRP", "0", 1)
+	}
+	app := live[r.Intn(len(live))]
+	cr := ag.creator[app]
+	switch k := r.Intn(100); {
+	case k < 10: // somebody (often the creator) opts in
+		snd := user()
+		if r.Chance(40) {
+			snd = cr
+		}
+		return "group " + g.appTxn(snd, fee, app, 1, 0, 0)
+	case k < 30: // the creator calls its own app: bumps its own local counter
+		return "group " + g.appTxn(cr, fee, app, 0, 0, 0)
+	case k < 40: // somebody else bumps its own counter
+		return "group " + g.appTxn(user(), fee, app, 0, 0, 0)
+	case k < 58: // anybody copies the CREATOR's local counter into global state
+		return "group " + g.appTxn(user(), fee, app, 0, 1, cr)
+	case k < 74: // anybody writes global state only
+		return "group " + g.appTxn(user(), fee, app, 0, 2, 0)
+	case k < 84: // box write (the application account must hold the box's minimum balance)
+		if !ag.funded[app] {
+			lg.nonce++
+			ag.funded[app] = true
+			return fmt.Sprintf("group pay,%d,%d,%d,%d,%d,0,%d,%d,0", lg.payer(h.view()), lg.minFee, lg.round, lg.round+10, lg.nonce, app, 500000)
+		}
+		return "group " + g.appTxn(user(), fee, app, 0, 3, 0)
+	case k < 88: // update (same programs) by the creator or by somebody else
+		snd := cr
+		if r.Chance(30) {
+			snd = user()
+		}
+		return "group " + g.appTxn(snd, 3*lg.minFee, app, 4, 0, 0)
+	case k < 92: // close out / clear state
+		return "group " + g.appTxn(user(), fee, app, 2+r.Intn(2), 0, 0)
+	case k < 94: // delete
+		return "group " + g.appTxn(cr, fee, app, 5, 0, 0)
+	default: // a payment and a call in one group
+		t1 := strings.Replace(lg.goodPay(h.view()), "GRP", "1", 1)
+		t2 := lcSetTag(g.appTxn(cr, fee, app, 0, r.Intn(3), 0), "1")
+		if r.Chance(50) {
+			t2 = lcSetTag(g.appTxn(user(), fee, app, 0, 1, cr), "1")
+		}
+		return "group " + t1 + ";" + t2
 	}
 }
 
